@@ -98,6 +98,19 @@ CHECKS["C12"] = dict(
          "their output with the extracted checkers."),
    note=ENUM_NOTE + "Filters are finite rejected sets.  Known findings: bee search never returns once a filter/merge removes a program; heap search yields programs containing a merged program that were already queued; constant-delay search loses unrelated programs after a merge.  Their classifiers are shape-based (no faithful model of the enumerators exists), so another defect with the same symptom on the same enumerator would be attributed to them.",
    design="5/C12")
+CHECKS["C09"] = dict(
+   technique="Coq proof of the alias-table and sampling models over exact rationals + extracted-model/implementation correspondence (scripted uniforms and scripted samplers); fixed-seed chi-square tests for the native back-end and the real PRNG",
+   text=("Theorems (Props/C09.v, closed under the global context): for any n > 0 non-negative weights of positive sum the alias table built by the "
+         "fallback sampler induces exactly the normalised weights (C09_alias_exact, C09_alias_exact_sum1), where the induced distribution draw_dist is "
+         "the area of the preimage of each index under the draw as a function of its two uniforms (C09_draw_measure); for well-formed deterministic "
+         "table grammars with rule-ordered weights the distribution of sample_program over choice streams equals probability on every program, has "
+         "total mass 1 and only yields members, and a sample depends only on the choices it consumes (C09_program_distribution, C09_members_only, "
+         "C09_deterministic); for unambiguous grammars only replay and total mass 1 are proved (C09_u_distribution_partial, C09_u_deterministic).  "
+         "C09_fair_coin_refuted / C09_unnormalised_refuted exhibit the behaviour before the fix: commits.  Each run compares the extracted model with "
+         "the code: alias tables for random weight vectors (as induced distributions), scripted (u1,u2) grids straddling every threshold, grammar "
+         "sampling with every VoseSampler replaced by a scripted one, seed usage (pairwise distinct sampler seeds), value-sampler wrappers."),
+   note=TB + "Ideal independent uniforms are assumed, and distinct integer seeds are assumed to give independent streams.  Long-run frequencies, the native vose extension and the real PRNG are only TESTED (chi-square, fixed seeds, alpha 1e-6) - not proved.  u1*n is computed in floating point; the scripted grid stays 2^-20/n away from column boundaries.  The model gets exact rational weights, the implementation the nearest floats (tolerance 2^-48).  For unambiguous grammars 'mass = reported probability' and members-only are covered by the correspondence only.",
+   design="5/C09")
 NOT_YET = {}
 def main():
     props = [json.loads(l) for l in open(os.path.join(V, "properties.jsonl"))]
